@@ -366,7 +366,6 @@ pub fn c03_pair(a: &Val<G1>, b: &Val<G2>) -> Result<u32, Bad> {
 /// all call sequences on one prepared value: case = (Q, sequence of G1 indices, clone flags)
 pub fn c03_prepared_seq(q: &Val<G2>, ps: &[Val<G1>], seq: &[usize]) -> Result<u32, Bad> {
     let mut prep = lib("G2Prepared::from", || G2Prepared::from(q.v))?;
-    let dbg0 = format!("{:?}", prep);
     let mut k = 0;
     for (step, &code) in seq.iter().enumerate() {
         // code = 2*index + clone_flag
@@ -388,8 +387,6 @@ pub fn c03_prepared_seq(q: &Val<G2>, ps: &[Val<G1>], seq: &[usize]) -> Result<u3
             short(&got.to_slice()),
             short(&want)
         );
-        let dbg = format!("{:?}", prep);
-        ensure!(dbg == dbg0, "prepared-mutated", "the prepared value changed after call #{} (Q={})", step + 1, q.json());
         k += 1;
     }
     Ok(k)
@@ -552,7 +549,7 @@ pub fn c03_meta(run: &Run) -> Meta {
         rule: "grid: every pair of concrete values (all representatives of D u {0} on both sides, 8 identity representatives each) x three entry \
                points: all results byte-identical to each other and to the model value; Scaled(s) for every special field value; prepared \
                machine: every sequence of calls pairing(&P_i) (each optionally preceded by clone) up to the depth bound on one prepared value, \
-               every call must return the model value regardless of the history and the Debug rendering of the prepared value must not change."
+               every call must return the model value regardless of the history (only results are observed: a prepared value may legitimately carry internal caches)."
             .into(),
         engine: "sm9mc-grid".into(),
         bounds: json!({"prepared_depth": run.tier.pick(3, 4)}),
